@@ -508,16 +508,30 @@ func Run(in Input) Obs {
 
 // ---------------------------------------------------------------- Render
 
+// compact Coq notation of C15_Corr: a version is 4*short+group, a rule is `r a b`, a chain
+// is the list of positions of its rules in the declared list
 func coqVer(v Ver) string {
-	if v.G == 0 {
-		return fmt.Sprintf("(None,%d)", v.S)
+	g := v.G
+	if g > 3 || g < 0 {
+		g = 3
 	}
-	return fmt.Sprintf("(Some %d,%d)", v.G, v.S)
+	return strconv.Itoa(4*v.S + g)
 }
-func coqRule(r Rule) string   { return "(" + coqVer(r.From) + "," + coqVer(r.To) + ")" }
+func coqRule(r Rule) string     { return "r " + coqVer(r.From) + " " + coqVer(r.To) }
 func coqRules(rs []Rule) string { return core.CoqList(rs, coqRule) }
-func coqObj(o Obj) string     { return fmt.Sprintf("(%d,%s)", o.Id, coqVer(o.V)) }
-func coqObjs(os []Obj) string { return core.CoqList(os, coqObj) }
+func coqObj(o Obj) string       { return fmt.Sprintf("o %d %s", o.Id, coqVer(o.V)) }
+func coqObjs(os []Obj) string   { return core.CoqList(os, coqObj) }
+func ruleIndex(rules []Rule, r Rule) int {
+	for i, x := range rules {
+		if x == r {
+			return i
+		}
+	}
+	return len(rules) + 1000 // not a declared rule
+}
+func coqChain(rules []Rule, chain []Rule) string {
+	return core.CoqList(chain, func(r Rule) string { return strconv.Itoa(ruleIndex(rules, r)) })
+}
 func coqOutcome(o Outcome) string {
 	switch o.Kind {
 	case "resp":
@@ -565,14 +579,14 @@ func Render(in Input, obs *Obs, crash string) core.Case {
 		return c
 	}
 	if in.Kind == "handler" {
-		chain := "None"
+		chain := "[]"
 		if obs.ChainFound {
-			chain = "(Some " + coqRules(obs.Chain) + ")"
+			chain = coqChain(in.Rules, obs.Chain)
 		}
-		c.Coq = fmt.Sprintf("CHandler %s %s %s %s\n  %s %s\n  %s (%s)",
+		c.Coq = fmt.Sprintf("CH %s %s %s %s\n  %s %s\n  %s (%s)",
 			coqRules(in.Rules), coqVer(in.Src), coqVer(in.Desired), chain,
 			coqObjs(mkObjs(1, in.NReq, in.Src)), core.CoqList(obs.Outs, coqOutcome),
-			core.CoqList(obs.Trace, func(i Inv) string { return "(" + coqRule(i.Rule) + "," + coqObjs(i.Objs) + ")" }),
+			core.CoqList(obs.Trace, func(i Inv) string { return fmt.Sprintf("(%d,%s)", ruleIndex(in.Rules, i.Rule), coqObjs(i.Objs)) }),
 			coqAnswer(obs.Ans))
 		c.JSON = obs
 		c.Key = fmt.Sprintf("H %s %s %s %d %v", coqRules(in.Rules), coqVer(in.Src), coqVer(in.Desired), in.NReq, in.Plan)
@@ -599,16 +613,16 @@ func Render(in Input, obs *Obs, crash string) core.Case {
 	longest, found := 0, 0
 	for i, a := range obs.Answers {
 		if obs.Found[i] {
-			answers[i] = "Some " + coqRules(a)
+			answers[i] = coqChain(in.Rules, a)
 			found++
 			if len(a) > longest {
 				longest = len(a)
 			}
 		} else {
-			answers[i] = "None"
+			answers[i] = "[]"
 		}
 	}
-	c.Coq = fmt.Sprintf("CSearch %s %s\n  %s\n  [%s]", coqRules(in.Rules), core.CoqBool(in.Shared), coqRules(in.Queries), strings.Join(answers, "; "))
+	c.Coq = fmt.Sprintf("CS %s %s\n  %s\n  [%s]", coqRules(in.Rules), core.CoqBool(in.Shared), coqRules(in.Queries), strings.Join(answers, "; "))
 	c.JSON = obs
 	c.Key = fmt.Sprintf("S %s %v %s", coqRules(in.Rules), in.Shared, coqRules(in.Queries))
 	c.Nontrivial = len(in.Rules) >= 2 && longest >= 2
